@@ -4,9 +4,11 @@ pub mod family;
 pub mod hooks;
 pub mod lg;
 pub mod props;
+pub mod rec;
 pub mod report;
 pub mod sched;
 pub mod scratch;
+pub mod specref;
 
 use std::sync::atomic::{AtomicBool, Ordering};
 use std::sync::mpsc;
